@@ -2,7 +2,7 @@
 # Runs the repository's pinned test suite with the verification guard OFF and compares with /root/.vp/BASELINE.json
 unset BOAVIZTA_E_FOOTPRINT_VERIF
 OUT=$(mktemp -d)
-cd /repo && /venv/bin/python -m pytest -ra -q -p no:cacheprovider --timeout=900 --continue-on-collection-errors \
+cd ${REPO_DIR:-/repo} && /venv/bin/python -m pytest -ra -q -p no:cacheprovider --timeout=900 --continue-on-collection-errors \
   --junitxml=$OUT/junit.xml > $OUT/log.txt 2>&1
 /venv/bin/python - "$OUT/junit.xml" <<'PY'
 import json, sys, xml.etree.ElementTree as ET
